@@ -3,6 +3,7 @@
 package hsd
 
 import (
+	"bytes"
 	"context"
 	"crypto/ed25519"
 	"crypto/sha1"
@@ -13,12 +14,15 @@ import (
 	"fmt"
 	mrand "math/rand"
 	"net"
+	"os"
 	"strings"
 	"time"
 
 	wrapping "github.com/hashicorp/go-kms-wrapping/v2"
 	"github.com/hashicorp/go-kms-wrapping/v2/aead"
 	"github.com/hashicorp/nodeenrollment"
+	"github.com/hashicorp/nodeenrollment/registration"
+	"github.com/hashicorp/nodeenrollment/rotation"
 	nodetls "github.com/hashicorp/nodeenrollment/tls"
 	"github.com/hashicorp/nodeenrollment/types"
 	"google.golang.org/protobuf/proto"
@@ -34,6 +38,8 @@ type Cfg struct {
 	SW       bool     `json:"sw"`
 	RegW     bool     `json:"regw"` // server configured with an AEAD registration wrapper
 	CertKeys []string `json:"certKeys"`
+	Unix     bool     `json:"unix"`    // listen on a unix socket instead of tcp
+	LifeSec  int      `json:"lifeSec"` // root lifetime in seconds (0: library default); short lifetimes enable RotateWait
 }
 
 type Behaviour struct {
@@ -71,6 +77,8 @@ type Obs struct {
 	CopyOK      bool     `json:"copyOK"`
 	ClientErr   string   `json:"clientErr"`
 	NotAuthErr  bool     `json:"notAuthorizedErr"`
+	CredsUnch   bool     `json:"credsUnchanged"`
+	SameKey     bool     `json:"sameKey"`
 	Temporary   bool     `json:"allTemporary"`
 	Negotiated  string   `json:"negotiated"`
 }
@@ -109,10 +117,13 @@ func (r *run) state() St {
 	for _, k := range r.cfg.CertKeys {
 		st.Rec[k] = r.srv.RecordPresent(k)
 		st.Cert[k] = "none"
-		if n, ok := r.srv.Nodes[k]; ok && len(n.Creds.CertificateBundles) == 2 {
-			if n.Fresh {
+		if n, ok := r.srv.Nodes[k]; ok {
+			switch {
+			case len(n.Creds.CertificateBundles) != 2:
+				st.Cert[k] = "pending"
+			case n.Fresh:
 				st.Cert[k] = "fresh"
-			} else {
+			default:
 				st.Cert[k] = "stale"
 			}
 		}
@@ -124,7 +135,19 @@ func Run(bh Behaviour, seed int64) ([]Line, error) {
 	if len(bh.Cfg.CertKeys) == 0 {
 		bh.Cfg.CertKeys = []string{"k1", "k2", "k3"}
 	}
-	sc := hs.ServerConfig{Seed: world.Uint64Seed(seed, bh.Id), StorageWrapper: bh.Cfg.SW, NodeIdLoader: bh.Cfg.Nidl, NoBaseTLS: !bh.Cfg.Base}
+	sc := hs.ServerConfig{Seed: world.Uint64Seed(seed, bh.Id), StorageWrapper: bh.Cfg.SW, NodeIdLoader: bh.Cfg.Nidl, NoBaseTLS: !bh.Cfg.Base,
+		Lifetime: time.Duration(bh.Cfg.LifeSec) * time.Second}
+	if bh.Cfg.Unix {
+		dir, derr := os.MkdirTemp("", "nevsock")
+		if derr != nil {
+			return nil, derr
+		}
+		defer os.RemoveAll(dir)
+		sc.Unix = dir + "/l.sock"
+	}
+	if bh.Cfg.LifeSec > 0 {
+		sc.RootOpts = []nodeenrollment.Option{nodeenrollment.WithNotBeforeClockSkew(0), nodeenrollment.WithNotAfterClockSkew(0)}
+	}
 	if bh.Cfg.RegW {
 		// the application's own registration wrapper: go-kms-wrapping's AEAD wrapper as shipped
 		aw := aead.NewWrapper()
@@ -144,7 +167,7 @@ func Run(bh Behaviour, seed int64) ([]Line, error) {
 	cfgMap := map[string]any{"nidl": bh.Cfg.Nidl, "base": bh.Cfg.Base}
 	var lines []Line
 	for i, op := range bh.Ops {
-		ln := Line{Tr: bh.Id, I: i + 1, Cfg: cfgMap, Op: op, Obs: Obs{Kinds: []string{}, Offered: []string{}, OfferedPref: []bool{}, Protos: []string{}, Temporary: true}}
+		ln := Line{Tr: bh.Id, I: i + 1, Cfg: cfgMap, Op: op, Obs: Obs{Kinds: []string{}, Offered: []string{}, OfferedPref: []bool{}, Protos: []string{}, Temporary: true, CredsUnch: true, SameKey: true}}
 		ln.Pre = r.state()
 		r.step(op, &ln)
 		ln.Post = r.state()
@@ -255,6 +278,55 @@ func (r *run) step(op map[string]any, ln *Line) {
 			ln.Err = err.Error()
 		}
 		ln.Res = "ok"
+	case "NewNode":
+		k := s(op, "k")
+		if _, ok := srv.Nodes[k]; ok {
+			ln.Res = "skip"
+			return
+		}
+		if _, err := srv.NewNode(k); err != nil {
+			ln.Res, ln.Err = "error", err.Error()
+			return
+		}
+		ln.Res = "ok"
+	case "AuthorizePending":
+		k := s(op, "k")
+		n, ok := srv.Nodes[k]
+		if !ok || len(n.Creds.CertificateBundles) > 0 || srv.RecordPresent(k) {
+			ln.Res = "skip"
+			return
+		}
+		// the operator authorises the request the node would present
+		req, err := n.Creds.CreateFetchNodeCredentialsRequest(srv.W.Ctx)
+		if err == nil {
+			_, err = registration.AuthorizeNode(srv.W.Ctx, srv.W.Store, req, srv.W.StorageOpts()...)
+		}
+		if err != nil {
+			ln.Res, ln.Err = "error", err.Error()
+			return
+		}
+		n.Fresh = true
+		ln.Res = "ok"
+	case "Rogue":
+		k := s(op, "k")
+		n, ok := srv.Nodes[k]
+		if !ok || len(n.Creds.CertificateBundles) != 2 {
+			ln.Res = "skip"
+			return
+		}
+		var opts []nodeenrollment.Option
+		if ex := extrasFor(s(op, "ex")); ex != nil {
+			opts = append(opts, nodeenrollment.WithExtraAlpnProtos(ex))
+		}
+		conn, et := srv.RogueDial(k, s(op, "kind"), opts...)
+		ln.Obs.ClientErr = et
+		if conn {
+			ln.Res = "conn"
+		} else {
+			ln.Res = "error"
+		}
+	case "RotateWait":
+		r.rotateWait(ln)
 	case "Connect":
 		r.connect(op, ln)
 	case "Dial":
@@ -312,10 +384,21 @@ func (r *run) dial(op map[string]any, ln *Line) {
 	srv := r.srv
 	k := s(op, "k")
 	n, ok := srv.Nodes[k]
-	if !ok || len(n.Creds.CertificateBundles) != 2 {
+	if !ok {
 		ln.Res = "skip"
 		return
 	}
+	pending := len(n.Creds.CertificateBundles) != 2
+	keyBefore := append([]byte(nil), n.Creds.CertificatePublicKeyPkix...)
+	rawBefore := rawCreds(srv, n)
+	defer func() {
+		if cur, err := types.LoadNodeCredentials(srv.W.Ctx, n.Storage, nodeenrollment.CurrentId); err == nil {
+			ln.Obs.SameKey = bytes.Equal(cur.CertificatePublicKeyPkix, keyBefore)
+		}
+		if pending && ln.Res != "auth" {
+			ln.Obs.CredsUnch = bytes.Equal(rawBefore, rawCreds(srv, n))
+		}
+	}()
 	var opts []nodeenrollment.Option
 	if ex := extrasFor(s(op, "ex")); ex != nil {
 		opts = append(opts, nodeenrollment.WithExtraAlpnProtos(ex))
@@ -337,8 +420,12 @@ func (r *run) dial(op map[string]any, ln *Line) {
 	}
 	if err != nil {
 		ln.Obs.ClientErr = err.Error()
+		ln.Obs.NotAuthErr = errors.Is(err, nodeenrollment.ErrNotAuthorized)
 	}
 	ln.Res = summarize(ln.Obs.Kinds)
+	if pending && auth == nil && ln.Res == "temperr" && ln.Obs.NotAuthErr {
+		ln.Res = "notauth"
+	}
 	if auth != nil {
 		ln.Obs.StatePres = auth.State != nil
 		ln.Obs.StateEq = (want == nil && auth.State == nil) || (want != nil && auth.State != nil && proto.Equal(want, auth.State)) ||
@@ -351,6 +438,46 @@ func (r *run) dial(op map[string]any, ln *Line) {
 		// client and server disagree about the outcome: keep both visible
 		ln.Obs.ClientErr = "client/server disagree: " + ln.Obs.ClientErr
 	}
+}
+
+func rawCreds(srv *hs.Server, n *hs.Node) []byte {
+	nc := &types.NodeCredentials{Id: string(nodeenrollment.CurrentId)}
+	if err := n.Storage.Load(srv.W.Ctx, nc); err != nil {
+		return nil
+	}
+	b, _ := proto.MarshalOptions{Deterministic: true}.Marshal(nc)
+	return b
+}
+
+// rotateWait waits (real time) until the second chain of every enrolled node is valid, then lets the
+// server rotate its roots: the old next becomes current, the old current is no longer recognised.
+func (r *run) rotateWait(ln *Line) {
+	srv := r.srv
+	if r.cfg.LifeSec <= 0 {
+		ln.Res = "skip"
+		return
+	}
+	var until time.Time
+	for _, n := range srv.Nodes {
+		if len(n.Creds.CertificateBundles) == 2 {
+			if t := n.Creds.CertificateBundles[1].CertificateNotBefore.AsTime(); t.After(until) {
+				until = t
+			}
+		}
+	}
+	if d := time.Until(until.Add(1200 * time.Millisecond)); d > 0 {
+		time.Sleep(d)
+	}
+	before, _ := types.LoadRootCertificates(srv.W.Ctx, srv.W.Inner, srv.W.StorageOpts()...)
+	after, err := rotation.RotateRootCertificates(srv.W.Ctx, srv.W.Store, srv.W.StorageOpts(
+		nodeenrollment.WithCertificateLifetime(time.Duration(r.cfg.LifeSec)*time.Second),
+		nodeenrollment.WithNotBeforeClockSkew(0), nodeenrollment.WithNotAfterClockSkew(0))...)
+	if err != nil || before == nil || !bytes.Equal(after.Current.PublicKeyPkix, before.Next.PublicKeyPkix) {
+		ln.Res = "harness-error"
+		ln.Err = fmt.Sprint("rotation did not promote: ", err)
+		return
+	}
+	ln.Res = "ok"
 }
 
 // ---- malformed inputs (C14) ----
